@@ -7,7 +7,7 @@ import pandas as pd
 
 from hypothesis import strategies as st
 
-from vlib import cal, gen, market
+from vlib import cal, gen, kit, market
 from vlib.runner import Part, Result, Violation
 from vlib.sut import clear_caches, load
 
@@ -22,7 +22,8 @@ RULE = ('Generated Yahoo-format CSV files (1-2 symbols with different first date
         'over two single-symbol sources); unknown symbol '
         '-> NaN through the handler. Oracle 2 (metamorphic): the answer at t is bit-identical when every row whose '
         'open lies after t is rewritten or deleted and when the row order is permuted. Non-trivial = some row lies '
-        'after t, or t precedes the first bar, or the answer needed a forward fill; distinct = distinct case JSON.')
+        'after t, or t precedes the first bar, or the answer needed a forward fill; distinct = distinct case JSON.'
+        ' Round-5 reach: a source quoting a spread (ask = 1.25 x bid) behind the handler (handler ask == source ask, handler bid == source bid); a fresh source asked about several symbols at instants that jump back and forth in time (second-level offsets so that memoised answers are not reused).')
 ASSUMPTIONS = [
     'well-formed CSV files with a Date column and unique dates (duplicate dates and header-only files are rejected by '
     'the loader and are not in the domain)',
@@ -175,6 +176,30 @@ def run_case(case):
                             if not same(float(g), exp):
                                 raise Violation('handler with a %s: %s(%s, EQ:%s) returned %r; point-in-time answer is %r' % (
                                     type(uni).__name__, k, t, name, g, exp))
+            # a source quoting a spread behind the handler: the handler's ask is that source's ask, its bid the bid
+            dhs = q.BacktestDataHandler(None, data_sources=[kit.SpreadSource(ds, 0.25)])
+            for name, rows in syms.items():
+                obs = observations(rows, adjust)
+                for t in queries[:6]:
+                    exp = lookup(obs, t)[0]
+                    gb, ga = dhs.get_asset_latest_bid_price(t, 'EQ:' + name), dhs.get_asset_latest_ask_price(t, 'EQ:' + name)
+                    if not (same(float(gb), exp) and same(float(ga), exp * 1.25)):
+                        raise Violation('handler over a source quoting bid %r / ask %r at %s for EQ:%s returned bid %r / ask %r' % (
+                            exp, exp * 1.25, t, name, gb, ga))
+            # the same long-lived source asked about several symbols at instants that jump back and forth in time
+            if case.get('interleave'):
+                ds3 = q.CSVDailyBarDataSource(path, q.Equity, adjust_prices=adjust, csv_symbols=list(syms))
+                names_ = list(syms)
+                for si, qi, dsec in case['interleave']:
+                    name = names_[si % len(names_)]
+                    t = queries[qi % len(queries)] + pd.Timedelta(seconds=dsec)
+                    exp = lookup(observations(syms[name], adjust), t)[0]
+                    for k, g in (('get_bid', ds3.get_bid(t, 'EQ:' + name)), ('get_ask', ds3.get_ask(t, 'EQ:' + name))):
+                        if not same(float(g), exp):
+                            raise Violation('%s(%s, EQ:%s) adjust=%s on a source that was asked about other symbols and '
+                                            'instants before returned %r; point-in-time answer is %r' % (k, t, name, adjust, g, exp))
+                    nq += 1
+                cls.add('interleaved_symbols_and_instants')
             for t in queries[:3]:
                 u = dh.get_asset_latest_bid_price(t, 'EQ:NOPE')
                 m_ = dh.get_asset_latest_mid_price(t, 'EQ:NOPE')
@@ -283,6 +308,8 @@ def cases(draw):
     cut = draw(st.sampled_from(qs))
     return {'symbols': syms, 'queries': qs, 'cut': cut, 'cut_mode': draw(st.sampled_from(['rewrite', 'delete', 'mix'])),
             'cut_seed': draw(st.integers(0, 1000)), 'cut_adjust': draw(st.booleans()), 'flags': flags,
+            'interleave': draw(st.lists(st.tuples(st.integers(0, 1), st.integers(0, 24), st.sampled_from([0, 1, 7, 3600])).map(list),
+                                        min_size=6, max_size=20)) if draw(st.booleans()) else [],
             'all_files': draw(st.sampled_from([False, False, True])), 'session_built': draw(st.sampled_from([False, False, True])),
             'zones': draw(st.lists(st.sampled_from([None, None, 'Europe/Berlin', 'America/New_York', 'Asia/Tokyo']), min_size=1, max_size=5))}
 
